@@ -153,7 +153,7 @@ func plCandidates(d *Decoded, maxImages int) (ks []int, drops [][]int) {
 func ExplorePL(h *History, d *Decoded, ops []Op, dir, tier string) []PLObs {
 	max := 100
 	if tier == "thorough" {
-		max = 1500
+		max = 600
 	}
 	ks, drops := plCandidates(d, max)
 	res := make([]PLObs, len(ks))
